@@ -124,6 +124,20 @@ def plane(tier: str, rng: random.Random) -> List[Tuple[str, Any, Any]]:
             out += [("pred", ("PMinItems", n), x), ("pred", ("PMaxItems", n), x), ("pred", ("PExactItemCount", n), x)]
         for d in (("VDict", []), ("VDict", [P(G.I(1), G.NONE)])):
             out += [("pred", ("PMinKeys", n), d), ("pred", ("PMaxKeys", n), d)]
+    # counts and lengths beyond the small integers an interpreter keeps as shared objects
+    for n in (255, 256, 257, 300, 1000):
+        for ln in (n - 1, n, n + 1):
+            xs_ = G.S("x" * ln)
+            out += [("pred", ("PMinLength", n), xs_), ("pred", ("PMaxLength", n), xs_), ("pred", ("PExactLength", n), xs_)]
+        for ln in (n - 1, n, n + 1):
+            lst = ("VList", [G.I(i % 7) for i in range(ln)])
+            out += [("pred", ("PMinItems", n), lst), ("pred", ("PMaxItems", n), lst), ("pred", ("PExactItemCount", n), lst)]
+    for n in (257, 300):
+        for ln in (n - 1, n, n + 1):
+            d_ = ("VDict", [P(G.I(i), G.NONE) for i in range(ln)])
+            out += [("pred", ("PMinKeys", n), d_), ("pred", ("PMaxKeys", n), d_)]
+        bs_ = G.B(b"y" * n)
+        out += [("pred", ("PExactLength", n), bs_), ("pred", ("PMinLength", n + 1), bs_)]
     for s in ["ß", "éA", "ǅ", "İ", "ﬁ", "σς", " é "]:
         for pr in (("Strip",), ("Upper",), ("Lower",)):
             out.append(("proc", pr, G.S(s)))
@@ -248,6 +262,40 @@ def reference(kind: str, t, x: Any) -> Any:
     return None
 
 
+def choices_by_reference() -> Optional[dict]:
+    """Choices is the relation `v in choices` with the set it holds *now*: the set its owner keeps (and may grow or
+    shrink) and whatever is assigned to the attribute later - also through a validator that carries it."""
+    from koda_validate import Choices, IntValidator, StringValidator
+    domain = [1, 2, 5, 9, True, 1.0, "a", "b", "", None, (1,), b"a"]
+    for mk in (lambda p_: p_, lambda p_: IntValidator(p_), lambda p_: StringValidator(p_)):
+        owner = {1, "a"}
+        pred = Choices(owner)
+        carrier = mk(pred)
+        steps = [("as built", lambda: None), ("after owner.add(5)", lambda: owner.add(5)), ("after owner.discard(1)", lambda: owner.discard(1)),
+                 ("after owner.add('b')", lambda: owner.add("b")), ("after owner.clear()", lambda: owner.clear()),
+                 ("after pred.choices = {9, ''}", lambda: setattr(pred, "choices", {9, ""}))]
+        for label, act in steps:
+            act()
+            for v_ in domain:
+                try:
+                    got, want = pred(v_), v_ in pred.choices
+                except Exception as e:  # noqa
+                    return {"kind": "oracle", "signature": "C15:raised:PChoices", "what": f"Choices({pred.choices!r})({v_!r}) raised {e!r} {label}",
+                            "replay_case": {"choices_by_reference": True}}
+                if got is not want:
+                    return {"kind": "oracle", "signature": "C15:relation:PChoices",
+                            "what": f"{label}: Choices holding {pred.choices!r} answers {got!r} for {v_!r}; `in` gives {want!r}",
+                            "replay_case": {"choices_by_reference": True}}
+            if carrier is not pred:
+                for v_ in domain:
+                    r_ = carrier(v_)
+                    if type(v_) is carrier._TYPE and r_.is_valid is not (v_ in pred.choices):
+                        return {"kind": "oracle", "signature": "C15:relation:PChoices",
+                                "what": f"{label}: {carrier!r}({v_!r}) is {'accepted' if r_.is_valid else 'rejected'}; `{v_!r} in choices` is {v_ in pred.choices}",
+                                "replay_case": {"choices_by_reference": True}}
+    return None
+
+
 def run(tier: str, rng: random.Random, proof_ok: bool) -> dict:
     t0 = time.time()
     items = plane(tier, rng)
@@ -344,6 +392,9 @@ def run(tier: str, rng: random.Random, proof_ok: bool) -> dict:
                     os.remove(path[:-2] + ext)
                 except OSError:
                     pass
+    cbr = choices_by_reference()
+    if cbr:
+        violations.append(cbr)
     cov = {"evaluations": evals, "distinct_nontrivial": len(nontrivial),
            "rule": "exhaustive enumeration of the bounded (predicate/processor parameter, argument) plane of the quantifier plus sampled large values; distinct (term, argument) pairs",
            "exhaustive": True, "samples": samples, "traces_validated_against_impl": evals, "mismatches": mism,
@@ -359,6 +410,10 @@ def replay(path: str) -> int:
     if not rc:
         print("no input in replay file:", j.get("what"))
         return 1
+    if rc.get("choices_by_reference"):
+        r_ = choices_by_reference()
+        print("property violated on this history: " + r_["what"] if r_ else "Choices follows the set it holds")
+        return 1 if r_ else 0
     ctx = Ctx(G.STD_CLASSES, [])
     t, xt = from_json(rc["t"]), from_json(rc["x"])
     x = to_py(xt, ctx.ct)
